@@ -29,7 +29,7 @@ Definition strip_error (f : frame) : frame :=
 Definition effect_eqb (a b : effect) : bool :=
   match a, b with
   | XEnq f, XEnq g => frame_eqb (strip_error f) (strip_error g)
-  | XFut o1 r1, XFut o2 r2 => Nat.eqb o1 o2 && Bool.eqb r1 r2
+  | XFut o1 r1 m1 d1, XFut o2 r2 m2 d2 => Nat.eqb o1 o2 && Bool.eqb r1 r2 && bytes_eqb m1 m2 && bytes_eqb d1 d2
   | XCb o1 s1, XCb o2 s2 => Nat.eqb o1 o2 && signal_eqb s1 s2
   | XPub o1 p1, XPub o2 p2 => Nat.eqb o1 o2 && pubop_eqb p1 p2
   | XAppFutCancel o1, XAppFutCancel o2 => Nat.eqb o1 o2
@@ -78,20 +78,20 @@ Definition first_bad_p (keep : effect -> bool) (cmpkeys : bool) (c : case_ep) : 
   let '(first, rs) := c in replay_p keep cmpkeys (ep_init first) rs 0.
 
 (* C07: what the application is told *)
-Definition keep_signals (x : effect) : bool := match x with XFut _ _ | XCb _ _ => true | _ => false end.
+Definition keep_signals (x : effect) : bool := match x with XFut _ _ _ _ | XCb _ _ => true | _ => false end.
 (* C08: what is put on the wire *)
 Definition keep_wire (x : effect) : bool := match x with XEnq _ | XRaised => true | _ => false end.
 (* C09: cancellation, both ends *)
 Definition keep_cancel (x : effect) : bool :=
   match x with
-  | XEnq (FCancel _ _) | XPub _ PCancelOp | XAppFutCancel _ | XCb _ _ | XFut _ _ => true
+  | XEnq (FCancel _ _) | XPub _ PCancelOp | XAppFutCancel _ | XCb _ _ | XFut _ _ _ _ => true
   | _ => false
   end.
 (* C10: nothing but the key sets *)
 Definition keep_none (x : effect) : bool := false.
 (* C11: what close does to the application *)
 Definition keep_close (x : effect) : bool :=
-  match x with XFut _ _ | XCb _ SError | XPub _ PCancelOp | XAppFutCancel _ => true | _ => false end.
+  match x with XFut _ _ _ _ | XCb _ SError | XPub _ PCancelOp | XAppFutCancel _ => true | _ => false end.
 (* C12: handlers reached and answers given *)
 Definition keep_service (x : effect) : bool := match x with XEnq _ | XHandler _ _ _ => true | _ => false end.
 Definition keep_all (x : effect) : bool := true.
